@@ -17,10 +17,17 @@ let fuel = nat_of_int 30000
 
 (* ---- behaviour ---- *)
 let norm s = if String.length s >= 5 && String.sub s 0 5 = "Panic" then "Panic" else s
+(* an observation with the node labels erased (`name#tag(..)` -> `name(..)`): the known class C02-node-tag is about WHICH node gets the
+   label; rules, spans and errors must agree there as everywhere else *)
+let erase_tags (s : string) : string =
+  let b = Buffer.create (String.length s) in
+  let skipping = ref false in
+  String.iter (fun c -> if !skipping then (if c = '(' then (skipping := false; Buffer.add_char b c)) else if c = '#' then skipping := true else Buffer.add_char b c) s;
+  Buffer.contents b
 let () =
   let gs : (string, bool * string * string * ogrammar * int) Hashtbl.t = Hashtbl.create 64 in
   let per_grammar : (string, int) Hashtbl.t = Hashtbl.create 64 in
-  let tv = ref 0 and unread = ref 0 and cases = ref 0 and limited = ref 0 and spec_in_h = ref 0 and spec_known = ref 0 and grammars = ref 0 in
+  let tv = ref 0 and unread = ref 0 and cases = ref 0 and limited = ref 0 and spec_in_h = ref 0 and spec_known = ref 0 and grammars = ref 0 and beyond_tags = ref 0 in
   let known_by_class : (string, int) Hashtbl.t = Hashtbl.create 8 in
   read_lines (fun line ->
     if String.length line > 0 && line.[0] = '#' then print_endline line else
@@ -68,6 +75,11 @@ let () =
              let seen = (try Hashtbl.find per_grammar id with Not_found -> 0) in
              Hashtbl.replace per_grammar id (seen + 1);
              if why = 0 then begin incr spec_in_h; if seen < 2 then report "spec" full d v end
+             else if why = 3 && erase_tags d <> erase_tags v then begin
+               (* outside H only because of `#t = e?` / `#t = e*`, and the two back-ends differ in more than the labels *)
+               incr spec_in_h; incr beyond_tags;
+               if !beyond_tags <= 4 then report "spec" (Printf.sprintf "H=beyond-C02-node-tag x=%d r=%s in=%s g=%s og=%s" (if extras then 1 else 0) rule inp text osexp) d v
+             end
              else begin
                incr spec_known;
                let c = why_name why in
@@ -82,5 +94,5 @@ let () =
   let tot = Array.fold_left (+) 0 h_counts in
   Printf.printf "#H\tgrammars=%d\tin_H=%d\tshadow_builtin=%d\tws_nonatomic=%d\tnode_tag=%d\tdirty_atomic_rep=%d\n" tot h_counts.(0) h_counts.(1) h_counts.(2) h_counts.(3) h_counts.(4);
   Hashtbl.iter (fun c k -> Printf.printf "#KNOWNCLASS\t%s=%d\n" c k) known_by_class;
-  Printf.printf "#RUNNER\tcases=%d\ttv=%d\tunread=%d\tmismatches=%d\tlimited=%d\tspec_in_H=%d\tspec_known=%d\tbatch_grammars=%d\n"
-    !cases !tv !unread !mismatches !limited !spec_in_h !spec_known !grammars
+  Printf.printf "#RUNNER\tcases=%d\ttv=%d\tunread=%d\tmismatches=%d\tlimited=%d\tspec_in_H=%d\tspec_known=%d\tbatch_grammars=%d\tbeyond_tags=%d\n"
+    !cases !tv !unread !mismatches !limited !spec_in_h !spec_known !grammars !beyond_tags
